@@ -30,6 +30,7 @@ CONSTANTS Fused,       \* TRUE: link-faithful (no own action while holding an un
           MaxFees,      \* max update_fee messages
           Openers,      \* set of parties that may be the opener (Init picks one)
           InitRate,     \* initial fee rate (sat/kw)
+          SoftReest,    \* TRUE: allow channel_reestablish on live objects (SoftDisconnect; API level, needs ~Fused)
           F6Quirk,      \* TRUE: AdvanceCommitChainTail returns early while no unsignedAckedUpdates exist (as the code does)
           F7Quirk       \* TRUE: restore appends pending-commit updates before older peer-local updates (as the code does)
 
@@ -423,7 +424,7 @@ Disconnect ==
 \* (Disconnect above); the state machine's API allows this, and C06's release rule must hold here too
 \* (a party may hold an unrevoked local tip that is not durable yet).
 SoftDisconnect ==
-  /\ ~Fused /\ ndisc < MaxDisc
+  /\ SoftReest /\ ~Fused /\ ndisc < MaxDisc
   /\ \A p \in Party : phase[p] = "run"
   /\ ndisc' = ndisc + 1
   /\ net' = [p \in Party |-> <<>>]
